@@ -4,7 +4,9 @@
 (* dict or constraint polynomial is called by the harness with a deep      *)
 (* snapshot taken before; the observation `the argument still equals its   *)
 (* snapshot and has kept its type` is recorded per (function, argument     *)
-(* kind, case) and asserted here, together with `no exception`.            *)
+(* kind, case) and asserted here, together with `no exception` and with    *)
+(* the same observation made again after the harness wrote into the        *)
+(* call's result.                                                          *)
 (***************************************************************************)
 EXTENDS Integers, Sequences, Json, IOUtils, TLC
 Recs == ndJsonDeserialize(IOEnv.QV_RECS)
@@ -14,5 +16,7 @@ Next == c = 0 /\ c' \in 1..Len(Recs)
 Spec == Init /\ [][Next]_c
 R == Recs[c]
 ArgUnchanged == c = 0 \/ R.unchanged \/ (PrintT(<<"QVVIOL", "ArgUnchanged", c, R.fn>>) /\ FALSE)
+\* writing into the RESULT of the call afterwards does not show in any argument (no aliasing of inputs by results)
+ResultIndependent == c = 0 \/ R.independent \/ (PrintT(<<"QVVIOL", "ResultIndependent", c, R.fn>>) /\ FALSE)
 NoRaise == c = 0 \/ R.raised = "" \/ (PrintT(<<"QVVIOL", "NoRaise", c, R.fn>>) /\ FALSE)
 =============================================================================
